@@ -150,7 +150,7 @@ func exploreScenario(c *core.Ctx, prop string, sc *concScenario, bound int) {
 		}
 		for _, f := range cur.failures {
 			parts := strings.SplitN(f, "|", 2)
-			c.Violate(parts[0]+"|"+sc.name, fmt.Sprintf("%s (%d deviations, %d scheduling points): %s", sc.name, cost, len(ex.Points), parts[1]), rp)
+			c.Violate(parts[0]+"|"+scenarioFamily(sc.name), fmt.Sprintf("%s (%d deviations, %d scheduling points): %s", sc.name, cost, len(ex.Points), parts[1]), rp)
 		}
 		if txt := rl.fresh(); txt != "" {
 			c.Violate("race|"+raceSig(txt), fmt.Sprintf("%s (%d deviations): data race\n%s", sc.name, cost, firstLinesStr(txt, 40)), rp)
@@ -251,4 +251,12 @@ func concJobs(names []string, shards int, race bool, timeout int) []core.Job {
 		}
 	}
 	return jobs
+}
+
+// scenarioFamily strips the parameter list of generated scenario names ("ping44[...]" -> "ping44").
+func scenarioFamily(n string) string {
+	if i := strings.Index(n, "["); i > 0 {
+		return n[:i]
+	}
+	return n
 }
